@@ -15,11 +15,15 @@ structure Verdict where
   oracle : Option String := none -- none = property predicate holds on impl output
   nt : Bool := true              -- non-trivial case by the family's stated rule
   tags : List String := []
+  attr : Option String := none   -- id of a listed known finding that fully explains this failing case
 
 def Verdict.toJson (v : Verdict) : Json :=
-  Json.mkObj [("k", v.k), ("model", v.model),
-              ("o", match v.oracle with | none => "ok" | some w => s!"fail:{w}"),
-              ("nt", v.nt), ("tags", Json.arr (v.tags.map Json.str).toArray)]
+  let base : List (String × Json) :=
+    [("k", Json.bool v.k), ("model", v.model),
+     ("o", Json.str (match v.oracle with | none => "ok" | some w => s!"fail:{w}")),
+     ("nt", Json.bool v.nt), ("tags", Json.arr (v.tags.map Json.str).toArray)]
+  let extra : List (String × Json) := match v.attr with | some a => [("attr", Json.str a)] | none => []
+  Json.mkObj (base ++ extra)
 
 abbrev Handler := Json → Json → Except String Verdict
 
